@@ -560,6 +560,7 @@ pub fn tworlds(id: &str, tier: Tier) -> Vec<crate::threaded::TSpec> {
             for (kind, name) in [(TKind::Merge(3), "merge/3"), (TKind::Combine(3), "combine/3")] {
                 add(name.into(), kind.clone(), 1, false, None, if quick { 2 } else { 3 });
                 add(name.into(), kind.clone(), 1, true, None, if quick { 1 } else { 2 });
+                add(name.into(), kind.clone(), 1, false, Some(1), if quick { 2 } else { 3 });
                 if !quick {
                     add(name.into(), kind.clone(), 2, false, None, 2);
                     add(name.into(), kind.clone(), 1, false, Some(2), 3);
@@ -572,6 +573,7 @@ pub fn tworlds(id: &str, tier: Tier) -> Vec<crate::threaded::TSpec> {
                 add(format!("take({n}) direct x2"), TKind::TakeDirect { n, threads: 2 }, 2, false, None, p);
                 add(format!("take({n}) direct x3"), TKind::TakeDirect { n, threads: 3 }, 1, false, None, if quick { 2 } else { 3 });
                 add(format!("take({n}) . merge/2"), TKind::TakeMerge { n, members: 2 }, 2, false, None, p);
+                add(format!("take({n}) . merge/3"), TKind::TakeMerge { n, members: 3 }, 1, false, None, 2);
                 if n <= 2 {
                     add(format!("take({n}) direct x2"), TKind::TakeDirect { n, threads: 2 }, 1, false, None, u32::MAX);
                 }
@@ -579,6 +581,7 @@ pub fn tworlds(id: &str, tier: Tier) -> Vec<crate::threaded::TSpec> {
                     add(format!("take({n}) direct x2"), TKind::TakeDirect { n, threads: 2 }, 2, false, None, u32::MAX);
                     add(format!("take({n}) direct x2"), TKind::TakeDirect { n, threads: 2 }, 3, false, None, 3);
                     add(format!("take({n}) . merge/3"), TKind::TakeMerge { n, members: 3 }, 1, false, None, 3);
+                    add(format!("take({n}) . merge/3"), TKind::TakeMerge { n, members: 3 }, 2, false, None, 2);
                     if n <= 2 {
                         add(format!("take({n}) . merge/2"), TKind::TakeMerge { n, members: 2 }, 1, false, None, u32::MAX);
                     }
@@ -602,6 +605,7 @@ pub fn c13_worlds(tier: Tier) -> Vec<WorldSpec> {
         (Op::Skip(1), 5, 2),
         (Op::Merge(2), 4, 1),
         (Op::Concat(2), 4, 2),
+        (Op::Concat(0), 4, 2),
         (Op::Combine(2), 4, 1),
         (Op::Flatten, 4, 1),
         (Op::ForEach(None), 6, 2),
